@@ -39,7 +39,8 @@ H0 == [res |-> <<>>, iz |-> 0, ir |-> 1, mx |-> 0, run |-> 0, rows |-> <<>>, str
 
 Row(st, lo, hi, closed) ==
   [lmin |-> lo.L, lmax |-> hi.L, smin |-> lo.S, smax |-> hi.S, emin |-> lo.E, emax |-> hi.E,
-   eminLF |-> st.eminLF, emaxLF |-> st.emaxLF, closed |-> closed, zero |-> ~closed, run |-> st.run]
+   eminLF |-> st.eminLF, emaxLF |-> st.emaxLF, closed |-> closed, zero |-> ~closed, run |-> st.run,
+   nvis |-> Len(st.strains)]
 
 Visit(st, cur) == [st EXCEPT !.strains = Append(@, cur.E), !.nfirst = IF st.run = 1 THEN @ + 1 ELSE @]
 
